@@ -333,3 +333,78 @@ def straddle_programs():
             out.append(scenario(sid, [(0x100, [0x00])], cpu(pc=base), 1, cart=(0, 0, 2), init_writes=iw))
         sid += 1
     return out
+
+
+# ------------------------------------------------------------ cache histories
+LO_BLOCK = 0x0200
+HI_BLOCKS = [0x4000, 0x4010]
+
+def cache_history_scenario(sid, steps, cart, bankreg=0x2000):
+    """A history of the CodeCache model as a program: bank-register writes and calls of blocks that
+    load their own bank index (A) and slot (C); every ROM bank holds different code at the same addresses."""
+    banks = {0: 2, 1: 4, 2: 8, 3: 16}[cart[1]]
+    a = Asm(0x150)
+    a.emit(0x31); a.word(0xDFF0)
+    for sym in steps:
+        if sym < 3:
+            a.emit(0x3E, sym + 1, 0xEA); a.word(bankreg)
+        elif sym == 3:
+            a.emit(0xCD); a.word(LO_BLOCK)
+        else:
+            a.emit(0xCD); a.word(HI_BLOCKS[sym - 4])
+    a.label("END"); a.jr(0x18, "END")
+    chunks = [(0x100, [0x00, 0xC3, 0x50, 0x01]), (a.org, a.resolve()), (LO_BLOCK, [0x3E, 0x00, 0x0E, 0xE0, 0xC9])]
+    for b in range(1, banks):
+        for k, addr in enumerate(HI_BLOCKS):
+            chunks.append((b * 0x4000 + (addr - 0x4000), [0x3E, b, 0x0E, k, 0xC9]))
+    nsteps = 2 + sum(1 if s < 3 else 2 for s in steps) + 2
+    return scenario(sid, chunks, cpu(pc=0x100, sp=0xFFFE), nsteps, mode="block", cart=cart)
+
+def cache_events(trace_lines):
+    """Projection of a recorded jit run to the events of the CodeCache model (no guessing: bank writes are
+    taken from the bus-write log, runs from the pc before the step and the A register after it)."""
+    ev = []
+    for line in trace_lines:
+        r = json.loads(line)
+        if r["ev"] == "init":
+            ev.append({"ev": "reset", "a": 0, "b": 0, "ranbank": 0})
+        elif r["ev"] == "step" and r["k"] == "block":
+            if r.get("cold"):
+                ev.append({"ev": "cold", "a": 0, "b": 0, "ranbank": 0})
+            if r["pc0"] == LO_BLOCK or r["pc0"] in HI_BLOCKS:
+                ev.append({"ev": "run", "a": r["pc0"], "b": 0, "ranbank": r["o"]["af"] >> 8})
+            for w in r["wr"]:
+                if 0x2000 <= w[0] < 0x4000:
+                    ev.append({"ev": "switch", "a": 0, "b": max(1, w[1] & 0x7F), "ranbank": 0})
+    return ev
+
+
+def cache_shape_scenarios():
+    """Block shapes beyond 'a block lies in one bank and does not switch' (CodeCache.tla: Straddle, SelfSwitch)."""
+    out = []
+    for ci, cart in enumerate(((1, 2, 0), (0x11, 2, 0))):
+        banks = 8
+        # Straddle: a block that starts at 0x3FFE in bank 0 and runs into the switchable bank
+        a = Asm(0x150)
+        a.emit(0x31); a.word(0xDFF0)
+        for b in (1, 2, 1, 3):
+            a.emit(0x3E, b, 0xEA); a.word(0x2000)
+            a.emit(0xCD); a.word(0x3FFE)
+        a.label("END"); a.jr(0x18, "END")
+        chunks = [(0x100, [0x00, 0xC3, 0x50, 0x01]), (a.org, a.resolve()), (0x3FFE, [0x04, 0x04])]
+        for b in range(1, banks):
+            chunks.append((b * 0x4000, [0x3E, b, 0xC9]))
+        out.append(("straddle", scenario(6000000 + ci, chunks, cpu(pc=0x100, sp=0xFFFE), 30, mode="block", cart=cart)))
+        # SelfSwitch: a block in the switchable bank that rewrites the bank register and continues
+        a = Asm(0x150)
+        a.emit(0x31); a.word(0xDFF0)
+        a.emit(0x3E, 1, 0xEA); a.word(0x2000)
+        a.emit(0xCD); a.word(0x4000)
+        a.label("END"); a.jr(0x18, "END")
+        chunks = [(0x100, [0x00, 0xC3, 0x50, 0x01]), (a.org, a.resolve())]
+        for b in range(1, banks):
+            # LD A,nb ; LD (0x2000),A ; LD B,b ; RET       (same layout in every bank)
+            nb = b % (banks - 1) + 1
+            chunks.append((b * 0x4000, [0x3E, nb, 0xEA, 0x00, 0x20, 0x06, b, 0xC9]))
+        out.append(("selfswitch", scenario(6000100 + ci, chunks, cpu(pc=0x100, sp=0xFFFE), 12, mode="block", cart=cart)))
+    return out
